@@ -4,6 +4,7 @@ Every theorem quantifies over all option lists, all environment values (arbitrar
 the exporters, over every `url.Parse` function (`Parse` is a parameter of the model).
 -/
 import Otel.C20.Lemmas
+import Otel.C20.PathLemmas
 set_option linter.unusedSimpArgs false
 namespace Otel.C20
 open Otel Otel.C20 Otel.C20.Spec
@@ -247,25 +248,58 @@ theorem generic_endpoint_appends_signal_path_logs (exp : Exp) (hh : exp.isHttp =
 
 /-- `generic_endpoint_appends_signal_path`, trace/metric exporters, exact form: the result is
 `cleanPath(path.Join(generic path, signal path))`. (That this is the generic path followed by the signal path up
-to path normalisation is `generic_path_normalised_statement`, checked by the oracle on every run.) -/
+to path normalisation is the theorem `generic_path_normalised` below.) -/
 theorem generic_endpoint_appends_signal_path_tm (exp : Exp) (hh : exp.isHttp = true) (hl : exp.isLog = false)
     (parse : Parse) (e : OtlpEnv) (opts : List UOpt) (base : Bytes)
     (hs : pathSource exp parse e opts = .generic base) :
     (newConfig exp parse e opts).path = cleanPath (pathJoin base exp.sigPath) exp.sigPath := by
   rw [otlp_path_exact exp hh, hs]; simp [hl, tmRawPath]
 
-/-- stated, not proved (needs idempotence-style lemmas about `path.Clean`): for the trace/metric HTTP exporters a
-generic endpoint path followed by the signal path is what results, up to path normalisation. -/
-def generic_path_normalised_statement : Prop :=
-  ∀ (exp : Exp) (base : Bytes), exp.isHttp = true → exp.isLog = false →
-    pathOK exp (.generic base) (cleanPath (pathJoin base exp.sigPath) exp.sigPath) = true
+/-- `generic_endpoint_appends_signal_path`, trace/metric exporters, the Spec relation itself (proved through the
+`path.Clean` theory of PathLemmas.lean: split/join inverse, reduced stacks are fixed points, rooting commutes with
+cleaning): for EVERY generic endpoint path `base`, `cleanPath(path.Join(base, signal path))` ends with the signal path and
+equals `base ++ signal path` up to path normalisation — provided the joined path does not begin with white space
+(`cleanPath` trims it; the condition is necessary, see the counterexample below). -/
+theorem generic_path_normalised (exp : Exp) (base : Bytes) (hh : exp.isHttp = true) (hl : exp.isLog = false)
+    (htrim : trimSpace (pathJoin base exp.sigPath) = pathJoin base exp.sigPath) :
+    pathOK exp (.generic base) (cleanPath (pathJoin base exp.sigPath) exp.sigPath) = true := by
+  have n1 : NoSlash [0x76, 0x31] := by intro c hc; revert c; decide
+  have n2 : NoSlash [0x74, 0x72, 0x61, 0x63, 0x65, 0x73] := by intro c hc; revert c; decide
+  have n3 : NoSlash [0x6d, 0x65, 0x74, 0x72, 0x69, 0x63, 0x73] := by intro c hc; revert c; decide
+  have m1 : Normal [0x76, 0x31] := by unfold Normal; decide
+  have m2 : Normal [0x74, 0x72, 0x61, 0x63, 0x65, 0x73] := by unfold Normal; decide
+  have m3 : Normal [0x6d, 0x65, 0x74, 0x72, 0x69, 0x63, 0x73] := by unfold Normal; decide
+  cases exp <;> simp [Exp.isHttp, Exp.isLog] at hh hl
+  · simp only [pathOK, Exp.sigPath, sTraces_form] at htrim ⊢
+    obtain ⟨h1, h2⟩ := generic_ab base _ _ n1 n2 m1 m2 htrim
+    simp only [h1, h2, beq_self_eq_true, Bool.and_self]
+  · simp only [pathOK, Exp.sigPath, sMetrics_form] at htrim ⊢
+    obtain ⟨h1, h2⟩ := generic_ab base _ _ n1 n3 m1 m3 htrim
+    simp only [h1, h2, beq_self_eq_true, Bool.and_self]
 
-/-- `otlp_precedence`, all settings at once: outside F20 and outside the unproved normalisation clause the whole
+/-- the side condition is necessary: a generic endpoint path whose first remaining segment begins with a space
+(e.g. the URL `%20a`, or `a/../%20b`) loses that space in `cleanPath` (`strings.TrimSpace`), which is more than path
+normalisation: ` a` + `/v1/traces` becomes `/a/v1/traces`. (Same root cause as F20; not generated by the harness.) -/
+theorem generic_path_leading_space_counterexample :
+    cleanPath (pathJoin [0x20, 0x61] Exp.th.sigPath) Exp.th.sigPath = 0x2f :: 0x61 :: sTraces
+    ∧ pathOK .th (.generic [0x20, 0x61]) (cleanPath (pathJoin [0x20, 0x61] Exp.th.sigPath) Exp.th.sigPath) = false
+    ∧ pathOK .th (.generic [0x61, 0x2f, 0x2e, 0x2e, 0x2f, 0x20, 0x62])
+        (cleanPath (pathJoin [0x61, 0x2f, 0x2e, 0x2e, 0x2f, 0x20, 0x62] Exp.th.sigPath) Exp.th.sigPath) = false := by
+  decide
+
+/-- instances of the statement, including dot segments above the root and a trailing slash -/
+example : pathOK .th (.generic [0x2e, 0x2e]) (cleanPath (pathJoin [0x2e, 0x2e] Exp.th.sigPath) Exp.th.sigPath) = true
+    ∧ pathOK .mh (.generic [0x2f, 0x62, 0x2f]) (cleanPath (pathJoin [0x2f, 0x62, 0x2f] Exp.mh.sigPath) Exp.mh.sigPath) = true
+    ∧ pathOK .th (.generic []) (cleanPath (pathJoin [] Exp.th.sigPath) Exp.th.sigPath) = true := by decide
+
+/-- `otlp_precedence`, all settings at once: outside F20 (and, for a generic endpoint of a trace/metric HTTP exporter,
+when the joined path does not begin with white space) the whole
 Spec oracle holds of the model, for each of the six exporters, all options, all environment values and every
 `url.Parse`. -/
 theorem otlp_precedence (exp : Exp) (parse : Parse) (e : OtlpEnv) (opts : List UOpt)
     (hF : F20_applies exp parse e opts = false)
-    (hg : exp.isLog = true ∨ ∀ b, pathSource exp parse e opts ≠ .generic b) :
+    (hg : exp.isLog = true ∨ ∀ b, pathSource exp parse e opts = .generic b →
+            trimSpace (pathJoin b exp.sigPath) = pathJoin b exp.sigPath) :
     otlpOK exp parse e opts (newConfig exp parse e opts) = true := by
   simp only [otlpOK, otlp_precedence_timeout, otlp_precedence_compression, otlp_precedence_headers,
     otlp_precedence_endpoint, beq_self_eq_true, Bool.true_and, Bool.or_eq_true, Bool.not_eq_eq_eq_not,
@@ -281,9 +315,15 @@ theorem otlp_precedence (exp : Exp) (parse : Parse) (e : OtlpEnv) (opts : List U
       rw [specific_endpoint_verbatim_partial exp hh parse e opts p hsrc hF]
       simp [pathOK]
     | generic b =>
-      cases hg with
-      | inl hl => exact (generic_endpoint_appends_signal_path_logs exp hh hl parse e opts b hsrc).2
-      | inr hn => exact absurd hsrc (hn b)
+      cases hl : exp.isLog with
+      | true => exact (generic_endpoint_appends_signal_path_logs exp hh hl parse e opts b hsrc).2
+      | false =>
+        have ht : trimSpace (pathJoin b exp.sigPath) = pathJoin b exp.sigPath := by
+          cases hg with
+          | inl h => rw [hl] at h; cases h
+          | inr hn => exact hn b hsrc
+        rw [generic_endpoint_appends_signal_path_tm exp hh hl parse e opts b hsrc]
+        exact generic_path_normalised exp b hh hl ht
     | dflt =>
       rw [otlp_path_exact exp hh, hsrc]
       cases exp <;> simp_all [Exp.isLog, Exp.isHttp, pathOK, logPath, tmRawPath, Exp.sigPath, clean_traces,
@@ -333,16 +373,5 @@ example : (newConfig .tg exParse { exEnv with toS := some [0x35], toG := some [0
 
 /-- the hypotheses of `otlp_precedence` are satisfiable with a specific endpoint that decides the path -/
 example : F20_applies .lh exParse exEnv [] = false ∧ pathSource .lh exParse exEnv [] = .specific [0x2f, 0x63, 0x75, 0x73, 0x74, 0x6f, 0x6d, 0x2f] := by decide
-
-/-- F39 (end-to-end observation, see `Spec.F39_applies`): the exclusion is as narrow as stated — it covers the log gRPC
-exporter only, and only when a certificate variable is set and the resolved transport is TLS. The model stops at the
-resolved configuration (the gRPC dial options are assembled in client.go), so this is a statement about the
-classification predicate, not about the code. -/
-theorem F39_only_loggrpc_tls_with_certificate (exp : Exp) (certVar insecure : Bool)
-    (h : F39_applies exp certVar insecure = true) : exp = .lg ∧ certVar = true ∧ insecure = false := by
-  cases exp <;> cases certVar <;> cases insecure <;> simp_all [F39_applies]
-
-/-- the predicate is satisfiable; an insecure (clear text) configuration is never excused by it -/
-example : F39_applies .lg true false = true ∧ F39_applies .lg true true = false ∧ F39_applies .tg true false = false := by decide
 
 end Otel.C20
